@@ -1,9 +1,10 @@
 (* C09 — structural corruption is reported with the matching status code.
    One theorem per kind of field, for the reader that meets the corrupted field first and on any
-   bytes that follow it.  (That the readers reach the field — i.e. consume the valid sections before
-   it exactly — is C07's "consumes exactly the bytes its writer produced"; the composition over
-   whole files is exercised by the correspondence run: every field of every generated file.)
-   Statements only; proofs in StatusFacts.v. *)
+   bytes that follow it; then (end of this file) the composition over whole files for the slice,
+   column and metadata-section positions: the valid part in front is read exactly as written and
+   the session ends with that status.  Deeper fields (inside a value array or a metadata entry) are
+   composed by the correspondence run: every field of every generated file.
+   Statements only; proofs in StatusFacts.v and CorruptFacts.v. *)
 From Sbdf Require Import Imp ImpCall Gen.Prog ImpFacts ImpFacts7 ImpFactsFrame ImpFactsCmp ImpFactsHeap ImpFactsRead.
 From Coq Require Import String List.
 From Sbdf Require Import File PrimFacts VaFacts SliceFacts TmFacts FileFacts StatusFacts CorruptFacts LeafTie.
